@@ -203,7 +203,10 @@ let check (b : block) : verdict list =
            | `Rows rows ->
              let cfgs = List.map (fun (_, _, l) -> l) rows in
              let rvals = List.map (fun (_, _, l) -> value avals l) rows in
-             if q.a = [] && rc_ge q.k && List.length rows <> q.k then
+             let best_exists = (match impl_best with `Some _ -> true | _ -> false) in
+             if rows = [] && best_exists && q.k >= 1 then
+               viol "topk:wrong-size" "no configuration returned although calc_best_config finds a model containing the assumptions"
+             else if q.a = [] && rc_ge q.k && List.length rows <> q.k then
                viol "topk:wrong-size" (Printf.sprintf "%d configurations returned, expected min(k=%d, count=%s)" (List.length rows) q.k rc)
              else if List.length rows > q.k then viol "topk:wrong-size" "more than k configurations"
              else if List.exists (fun l -> not (is_model l)) cfgs then viol "topk:not-a-model" "a returned configuration is not a model containing the assumptions"
